@@ -175,8 +175,10 @@ class StartOrderMonitor:
         return False
 
     @staticmethod
-    def _request_in_flight(w, sender, t, q):
-        for msg in w.channels.get((sender, t), ()):
+    def _request_in_flight(w, sender, t, q, skip_last=False):
+        """skip_last: called from on_emit for the very target of the request being emitted (already queued)."""
+        msgs = list(w.channels.get((sender, t), ()))
+        for msg in (msgs[:-1] if skip_last else msgs):
             try:
                 if msg[0].name == 'REQUEST' and msg[1][1][0] == 1 and msg[1][1][1][0] == q:
                     return True
@@ -275,6 +277,34 @@ class StartOrderMonitor:
                     failed = True   # the sender gave the start up (timeout): it displays the forced FATAL
             if failed:
                 self.failed_required[(sender, info['app'])] = q
+        # a required program that could not even be requested (no resource): the sender that has start requests of the
+        # application in its ledger displays it FATAL with that reason (a forced state, no request was ever made)
+        for sender in sorted({snd for (snd, _q) in L.starts}):
+            if only_sender is not None and sender != only_sender:
+                continue
+            s = w.sups[sender]
+            if not s.alive:
+                continue
+            view = None
+            for q, info in rv.procs.items():
+                if not info['required'] or info['starting_failure_strategy'] not in ('ABORT', 'STOP') \
+                        or (sender, q) in L.starts or (sender, info['app']) in self.failed_required:
+                    continue
+                if not any(rv.procs[x]['app'] == info['app'] for (snd, x) in L.starts if snd == sender and x in rv.procs):
+                    continue
+                view = view or process_view(s)
+                pv = view.get(q)
+                if pv and pv['statename'] == 'FATAL' and not pv['identifiers'] \
+                        and 'No resource' in (self.reason(s, q) or ''):
+                    self.failed_required[(sender, info['app'])] = q
+
+    @staticmethod
+    def reason(s, ns):
+        a, p = ns.split(':')
+        try:
+            return s.context.applications[a].processes[p].get_applicable_details()[1]
+        except KeyError:
+            return ''
 
     def job_reset(self, sender, app):
         self.failed_required.pop((sender, app), None)
@@ -368,7 +398,8 @@ class EligibilityMonitor:
         if prev is not None:
             # (the ledger is updated after the monitors of the same emission: prev is the previous request)
             st = gt_state(w, prev, p)
-            still = (st in (PS.STARTING, PS.BACKOFF) or StartOrderMonitor._request_in_flight(w, sender, prev, p))
+            still = (st in (PS.STARTING, PS.BACKOFF)
+                     or StartOrderMonitor._request_in_flight(w, sender, prev, p, skip_last=(prev == t)))
             if still and (sender, p) not in L.forced and (sender, prev) not in L.lost:
                 w.violations.append({'clause': 'already-being-started', 'signature': 'C04:double-start',
                                      'sender': sender, 'process': p, 'previous_target': prev, 'state': str(st)})
@@ -566,7 +597,9 @@ class Jobs(Driver):
         return [StartOrderMonitor(rv, cfg.get('job_kind', 'application') == 'auto'),
                 EligibilityMonitor(rv, w.scenario['node_of']),
                 StopOrderMonitor(rv),
-                FsmGraphMonitor(n), DetectionMonitor(n, int(opts['inactivity_ticks']), opts['auto_fence'] == 'true'),
+                FsmGraphMonitor(n, '[supvisors_failure_strategy=SHUTDOWN]'
+                                if opts.get('supvisors_failure_strategy') == 'SHUTDOWN' else ''),
+                DetectionMonitor(n, int(opts['inactivity_ticks']), opts['auto_fence'] == 'true'),
                 JobLedger(n)]
 
     def settle(self, w):
@@ -638,6 +671,8 @@ class Jobs(Driver):
         for e in w.proc_events(allowed):
             if e[3] == 'backoff' and w.sups[e[1]].proc(e[2]).backoff >= cfg.get('backoffs', 1):
                 continue
+            if e[3] == 'exit_bad' and cfg.get('crashes') is not None and w.budget.get('X', cfg['crashes']) <= 0:
+                continue    # bounded number of process crashes (a crash / repair cycle needs no tick)
             if e[3] == 'retry' and 'giveup' in allowed and w.sups[e[1]].proc(e[2]).backoff >= cfg.get('backoffs', 1) \
                     and cfg.get('retry_after_last_backoff', True) is False:
                 continue
@@ -659,13 +694,21 @@ class Jobs(Driver):
                 st = gt_state(w, u[1], u[2])
                 if st in RUNNING_LIKE and w.budget.get('U', cfg.get('U', 1)) > 0:
                     evs.append(u)
+            elif u[0] in ('udisable', 'uenable'):
+                # supvisors.disable / enable on a live instance whose program is stopped and in the other mode
+                s_ = w.sups[u[1]]
+                if s_.alive and w.budget.get('U', cfg.get('U', 1)) > 0 and gt_state(w, u[1], u[2]) in STOPPED_LIKE \
+                        and bool(s_.proc(u[2]).supvisors_config.program_config.disabled) != (u[0] == 'udisable'):
+                    evs.append(u)
         return evs
 
     def step_check(self, w, ev, obs, cfg):
         if ev[0] == 'crash':
             w.budget['F'] -= 1
-        if ev[0] in ('ustart', 'ustop'):
+        if ev[0] in ('ustart', 'ustop', 'udisable', 'uenable'):
             w.budget['U'] = w.budget.get('U', cfg.get('U', 1)) - 1
+        if ev[0] == 'proc' and ev[3] == 'exit_bad' and cfg.get('crashes') is not None:
+            w.budget['X'] = w.budget.get('X', cfg['crashes']) - 1
         trig = cfg.get('triggers', [])
         k = w.budget['trig']
         if k < len(trig) and tuple(_tup(trig[k])) == tuple(ev):
